@@ -476,7 +476,8 @@ int main() {
                 lqr.factor_masked(ABk, eval.Q(xur, y, μ, D, D_N), eval.R(xur), eval.S(xur),
                                   eval.R_prod(xur), eval.S_prod(xur), qk, rk, uk_eq, Jk, Kk, chol);
                 lqr.solve_masked(ABk, Jk, q, work_2x);
-                std::cout << vp::f2h(V) << " du " << vp::fmtv(q) << " g " << vp::fmtv(grad) << '\n';
+                std::cout << vp::f2h(V) << " du " << vp::fmtv(q) << " g " << vp::fmtv(grad) << " rcond "
+                          << vp::f2h(lqr.min_rcond) << '\n';
             } else if (op == "xstride") {
                 // side observation: detail::assign_extract_x vs OCPVariables::xk
                 long N = t.nat(), nx = t.nat(), nu = t.nat(), nh = t.nat(), nc = t.nat(),
